@@ -7,6 +7,9 @@ MCProcs2 == {"p1", "p2"}
 MCProcs3 == {"p1", "p2", "p3"}
 MCKeys == {K("k1", 1), K("k2", 1), K("k3", 2)}
 MCVals == {K("v1", 1), K("v2", 3)}
+(* A nil value ("vn", Set(k, nil)) and an empty non-nil one ("ve"): both are live entries of length 0; *)
+(* Get returns nil for the former but still counts a hit.                                          *)
+MCValsNil == {K("v1", 1), K("vn", 0), K("ve", 0)}
 
 AllConfs == {c \in [maxSize : {0, 5, 7}, maxElem : {0, 3, 9}, maxCount : {0, 1, 2},
                     lru : BOOLEAN, onDelete : {"nil", "rec", "reent"}] :
